@@ -314,12 +314,229 @@ def runHeap (req : Json) : R Json := do
     ("layer_cells", jList (fun (a : Arr) => jIdList a.fields) wf.laser.data),
     ("reads", jList (jRead wf) rds)])
 
+/-! ## several lasers -/
+
+/-- what the caller holds in a multi-laser case -/
+structure MCaller where
+  /-- structured arrays (layers) -/
+  arrObjs : List Arr := []
+  /-- every array the caller made, column by column (the structured ones first, then the arrays handed to `add`) -/
+  arrs : List (List Nat) := []
+  lists : List Nat := []
+  cals : List Nat := []
+  dicts : List Nat := []
+  cfgs : List Nat := []
+
+structure MSim where
+  m : MWorld
+  c : MCaller
+  /-- per laser: the plain dictionary of the property (`none` once one of its calls has failed in the dictionary) -/
+  specs : List (Option Spec) := []
+  errs : List (Option Err) := []
+  /-- per step, what the theorems `multi_call` / `multi_construct` / `multi_load` / `multi_history_view` say, evaluated -/
+  frame : List Bool := []
+
+def nthArr (l : List Arr) (i : Nat) : R Arr :=
+  match l[i]? with
+  | some x => pure x
+  | none => throw s!"caller array index {i} out of range"
+
+def viewsOf (m : MWorld) : List (Option State) := (List.range m.lasers.length).map (mview m)
+
+def dropAt {α : Type} (l : List α) (i : Nat) : List α := l.take i ++ l.drop (i + 1)
+
+/-- the caller's list objects hold what they held -/
+def listsKept (c : MCaller) (a b : MWorld) : Bool := c.lists.all (fun k => decide (b.listOf k = a.listOf k))
+
+def mSimStep (s : MSim) (j : Json) : R MSim := do
+  let m := s.m
+  match ← getStr j "op" with
+  | "construct" =>
+    let srr ← getBool j "srr"
+    let data : DataRef ← match fldOpt j "list" with
+      | some k => do pure (DataRef.list (← nth s.c.lists (← asNat k)))
+      | none => do pure (DataRef.own [← nthArr s.c.arrObjs (← getNat j "arr")])
+    let given ← match ← fld j "given" with
+      | .null => pure none
+      | g => do pure (some (← nth s.c.dicts (← asNat g)))
+    let config ← match ← fld j "cfg" with
+      | .null => pure none
+      | g => do pure (some (← nth s.c.cfgs (← asNat g)))
+    let r := mstep m (.construct srr data given config)
+    let ls := (data.layers m).map (viewLayer m.heap)
+    let givenV := given.map (fun g => viewDict m.heap (m.heap.dict g))
+    let cfgV := (config.map (fun k => (m.heap.cfgOf k).scal)).getD 0
+    let ok := match r with
+      | .ok m' =>
+        decide (m'.lasers.length = m.lasers.length + 1) &&
+        decide (mview m' m.lasers.length = some (mkState srr ls givenV cfgV)) &&
+        decide ((viewsOf m').take m.lasers.length = viewsOf m) && listsKept s.c m m' && decide (MValid m')
+      | .fail _ m' => decide (m' = m)
+    let sp := match r with
+      | .ok _ => [some (Spec.construct srr ls givenV cfgV)]
+      | .fail _ _ => []
+    pure { s with m := r.state, specs := s.specs ++ sp, errs := s.errs ++ [r.err], frame := s.frame ++ [ok] }
+  | "load" =>
+    let i ← getNat j "laser"
+    let r := mstep m (.load i)
+    let ok := match r, mview m i with
+      | .ok m', some v =>
+        decide (m'.lasers.length = m.lasers.length + 1) &&
+        decide (mview m' m.lasers.length = roundTrip v) &&
+        decide ((viewsOf m').take m.lasers.length = viewsOf m) && listsKept s.c m m' && decide (MValid m')
+      | .ok _, none => false
+      | .fail _ m', _ => decide (m' = m)
+    let sp := match r with
+      | .ok _ => [(s.specs[i]?).getD none]
+      | .fail _ _ => []
+    pure { s with m := r.state, specs := s.specs ++ sp, errs := s.errs ++ [r.err], frame := s.frame ++ [ok] }
+  | "call" =>
+    let i ← getNat j "laser"
+    let cj ← fld j "call"
+    let o ← match m.lasers[i]? with
+      | some o => pure o
+      | none => throw s!"laser index {i} out of range"
+    let fin := fun (m1 : MWorld) (op : HOp) (c : MCaller) =>
+      let r := mstep m1 (.call i op)
+      let cop := absOp m1.heap op
+      let own := decide (r.map (fun m' => mview m' i) = (stepE (view (m1.world o)) cop).map some)
+      let others := decide (dropAt (viewsOf r.state) i = dropAt (viewsOf m) i)
+      let sp := s.specs.mapIdx (fun k a => if k = i then a.bind (Spec.step · cop) else a)
+      ({ m := r.state, c := c, specs := sp, errs := s.errs ++ [r.err],
+         frame := s.frame ++ [own && others && listsKept c m r.state && decide (MValid r.state)] } : MSim)
+    match ← getStr cj "op" with
+    | "add" =>
+      let name ← getStr cj "name"
+      let datas ← getList (asPair (asList asNat) asNat) cj "data"
+      let (xs, h, arrs) := datas.foldl (fun (acc : List ArrIn × Heap × List (List Nat)) d =>
+        let r := acc.2.1.allocCells [d.2]
+        (acc.1 ++ [(d.1, r.1.headD 0)], r.2, acc.2.2 ++ [r.1])) ([], m.heap, [])
+      let calJ ← fld cj "cal"
+      let (cal, h, cals) ← match calJ with
+        | .null => pure (none, h, ([] : List Nat))
+        | _ =>
+          match fldOpt calJ "obj" with
+          | some ob => do let k ← nth s.c.cals (← asNat ob); pure (some k, h, [])
+          | none => do
+            let r := h.allocCal (← getNat calJ "new")
+            pure (some r.1, r.2, [r.1])
+      let m1 : MWorld := { m with heap := h }
+      pure (fin m1 (.add name xs cal) { s.c with arrs := s.c.arrs ++ arrs, cals := s.c.cals ++ cals })
+    | "remove" => pure (fin m (.remove (← getList asStr cj "names")) s.c)
+    | "rename" => pure (fin m (.rename (← getList (asPair asStr asStr) cj "map")) s.c)
+    | "get" =>
+      pure (fin m (.get (← getNat cj "layer") (← fld cj "target" >>= asOpt asStr) (← getBool cj "calibrate")) s.c)
+    | o => throw s!"bad call {o}"
+  | "set_list" =>
+    let k ← nth s.c.lists (← getNat j "list")
+    let ents ← getList asNat j "entries"
+    let l ← ents.mapM (nthArr s.c.arrObjs)
+    let r := mstep m (.setList k l)
+    -- no laser keeps its layers in a list of the caller's: every view is what it was
+    pure { s with m := r.state, errs := s.errs ++ [r.err],
+                  frame := s.frame ++ [decide (viewsOf r.state = viewsOf m) && decide (MValid r.state)] }
+  | e =>
+    let op : HOp ← match e with
+      | "edit_cal" => pure (HOp.setCal (← nth s.c.cals (← getNat j "obj")) (← getNat j "content"))
+      | "edit_cfg" => pure (HOp.setCfg (← nth s.c.cfgs (← getNat j "obj")) (← getNat j "content"))
+      | "set_offsets" => pure (HOp.setOffsets (← nth s.c.cfgs (← getNat j "obj")) (← getNat j "content"))
+      | "edit_dict" =>
+        let k ← nth s.c.dicts (← getNat j "obj")
+        let ents ← getList (asPair asStr asNat) j "entries"
+        let d ← ents.mapM (fun e => do pure (e.1, ← nth s.c.cals e.2))
+        pure (HOp.setDict k d)
+      | o => throw s!"bad op {o}"
+    let r := mstep m (.edit op)
+    pure { s with m := r.state, errs := s.errs ++ [r.err],
+                  frame := s.frame ++ [decide (viewsOf r.state = viewsOf m) && decide (MValid r.state)] }
+
+def runMulti (req : Json) : R Json := do
+  let arrsJ ← getList pure req "arrays"
+  let listsJ ← getList (asList asNat) req "lists"
+  let calObjs ← getList asNat req "cal_objs"
+  let dictsJ ← getList (asList (asPair asStr asNat)) req "dicts"
+  let cfgsJ ← getList pure req "cfgs"
+  let stepsJ ← getList pure req "steps"
+  let rdsJ ← getList (asList parseRd) req "reads"
+  let mut h : Heap := { cells := [], cals := [], cfgs := [], offs := [], dicts := [] }
+  let mut c : MCaller := {}
+  for aj in arrsJ do
+    let shape ← getList asNat aj "shape"
+    let fields ← getList (asPair asStr asNat) aj "fields"
+    let r := h.allocCells (fields.map (·.2))
+    h := r.2
+    c := { c with arrObjs := c.arrObjs ++ [({ shape := shape, fields := List.zip (fields.map (·.1)) r.1 } : Arr)],
+                  arrs := c.arrs ++ [r.1] }
+  let mut lists : List (List Arr) := []
+  for lj in listsJ do
+    let l ← lj.mapM (nthArr c.arrObjs)
+    c := { c with lists := c.lists ++ [lists.length] }
+    lists := lists ++ [l]
+  for x in calObjs do
+    let r := h.allocCal x
+    h := r.2
+    c := { c with cals := c.cals ++ [r.1] }
+  for dj in dictsJ do
+    let d ← dj.mapM (fun e => do pure (e.1, ← nth c.cals e.2))
+    let r := h.allocDict d
+    h := r.2
+    c := { c with dicts := c.dicts ++ [r.1] }
+  for cj in cfgsJ do
+    let t ← getNat cj "scal"
+    if ← getBool cj "srr" then
+      let o := h.allocOffs 0
+      let r := o.2.allocCfg ⟨t, some o.1⟩
+      h := r.2
+      c := { c with cfgs := c.cfgs ++ [r.1] }
+    else
+      let r := h.allocCfg ⟨t, none⟩
+      h := r.2
+      c := { c with cfgs := c.cfgs ++ [r.1] }
+  let foreign : Foreign := { cals := c.cals, dicts := c.dicts, cfgs := c.cfgs }
+  let mut sim : MSim := { m := { heap := h, lists := lists, lasers := [] }, c := c }
+  for sj in stepsJ do
+    sim ← mSimStep sim sj
+  let m := sim.m
+  let lasers := (List.range m.lasers.length).filterMap (fun i => (m.lasers[i]?).map (fun o => (i, o)))
+  let enc := fun (p : Nat × MObj) =>
+    let w := m.world p.2
+    let s := view w
+    let rds := (rdsJ[p.1]?).getD []
+    let a := (sim.specs[p.1]?).getD none
+    jObj [("model", obsModel s []), ("spec", jOpt (obsSpec · rds) a), ("srr", jBool p.2.srr),
+          ("inv", jBool (decide (Inv s))), ("valid", jBool (decide (Valid w))),
+          ("abs_eq", jBool (match a with | some x => decide (abs s = x) | none => false)),
+          ("sep", jBool (decide (Sep foreign w))),
+          ("cal_ids", jIdList (w.heap.dict w.laser.cal)), ("dict_id", jNat w.laser.cal), ("cfg_id", jNat w.laser.cfg),
+          ("list_id", match p.2.data with | .list k => jNat k | .own _ => Json.null),
+          ("cfg_offs", jOpt jNat (w.heap.cfgOf w.laser.cfg).offs), ("cfg_offs_content", jOpt jNat (cfgOffsets w)),
+          ("layer_cells", jList (fun (a : Arr) => jIdList a.fields) w.laser.data),
+          ("reads", jList (jRead w) rds)]
+  let entryIdx := fun (a : Arr) => match sim.c.arrObjs.findIdx? (· == a) with
+    | some i => Json.num i
+    | none => Json.num (-1 : Int)
+  pure (jObj [
+    ("lasers", jList enc lasers),
+    ("errs", jList (jOpt jErr) sim.errs),
+    ("frame", jList jBool sim.frame),
+    ("mvalid", jBool (decide (MValid m))),
+    ("msep", jBool (decide (MSep foreign sim.c.lists m))),
+    ("caller_cals", jList jNat sim.c.cals), ("caller_dicts", jList jNat sim.c.dicts),
+    ("caller_cfgs", jList jNat sim.c.cfgs), ("caller_lists", jList jNat sim.c.lists),
+    ("caller_cfg_offs", jList (fun k => jOpt jNat (m.heap.cfgOf k).offs) sim.c.cfgs),
+    ("caller_arrs", jList (jList jNat) sim.c.arrs),
+    ("caller_list_entries", jList (fun k => jList entryIdx (m.listOf k)) sim.c.lists)])
+
 def handle (op : String) (req : Json) : R Json := do
   match op with
   | "c07.run" => runOne req
   | "c07.heap" =>
     let runs ← getList pure req "runs"
     let outs ← runs.mapM runHeap
+    pure (jObj [("runs", Json.arr outs.toArray)])
+  | "c07.multi" =>
+    let runs ← getList pure req "runs"
+    let outs ← runs.mapM runMulti
     pure (jObj [("runs", Json.arr outs.toArray)])
   | "c07.batch" =>
     let runs ← getList pure req "runs"
